@@ -752,7 +752,8 @@ def F2(ctx: Ctx) -> RuleResult:
         r.fail('metadata:return', 'a path through the callback ends without returning the collected annotations (None reaches hpl_property, which reads it as "no annotations")', fi.where)
     for name, k in (('metadata_id', 'id'), ('metadata_title', 'title'), ('metadata_desc', 'description')):
         fi, outs, _ = callback_outcomes(ctx, name)
-        ok = len(outs) == 1 and outs[0].value == TupleT((Const(k), C(0)))
+        # (a NamedTuple record with those two fields is the same pair)
+        ok = len(outs) == 1 and outs[0].value is not None and parser_eval(ctx)._as_tuple(outs[0].value, _State(), 0) in (TupleT((Const(k), C(0))), TupleT((Const(k), C(0)), 'tuple'))
         (r.ok(f'{name}: ({k!r}, c0)') if ok else r.fail(name, f'expected ({k!r}, c0), found {[str(o)[:80] for o in outs]}', fi.where))
     return r
 
